@@ -492,7 +492,16 @@ func (c *Ctx) evxRun() []*opsVerdict {
 		for i, n := range names {
 			edits = append(edits, edit{fmt.Sprintf("RemoveByName(%q)", n), call("RemoveByName", n)})
 			edits = append(edits, edit{fmt.Sprintf("RemoveByName(%q)", strings.ToUpper(n)), call("RemoveByName", strings.ToUpper(n))})
-			edits = append(edits, edit{fmt.Sprintf("Remove(%d)", i), call("Remove", int64(i))})
+			// (an index past the end is the caller's error, not an edit: nothing is removed then)
+			i := i
+			edits = append(edits, edit{fmt.Sprintf("Remove(%d)", i), func(h *vxHarness, col mIface) mOutcome {
+				l, out := callM(c, h.m, col.t, "Length", col.v)
+				if n, ok := l.(int64); out.kind != "ok" || !ok || int64(i) >= n {
+					return out
+				}
+				_, out = callM(c, h.m, col.t, "Remove", col.v, int64(i))
+				return out
+			}})
 			edits = append(edits, edit{fmt.Sprintf("Add(%s = 11)", n), add(n, 11)})
 			edits = append(edits, edit{fmt.Sprintf("RemoveByName(%q), Add(%s = 13)", n, n), seq(call("RemoveByName", n), add(n, 13))})
 		}
